@@ -3,7 +3,7 @@
      managers  : VList of (VNone | VInt timeout)
      contexts  : VList of VTup [VInt manager_index; VBool pool]
      pipelines : VList of VTup [VInt ctx; VList (VList ints) partitions; VList of VTup [VInt tag; VInt fn]]
-                 tag 0 map, 1 filter, 2 flatMap, 3 persist
+                 tag 0 map, 1 filter, 2 flatMap, 3 persist, 4 mapPartitions[WithIndex] with a generator function
      history   : VList of VTup [VInt 0; k; j; kind; n] (kind 0 collect, 1 count, 2 take n, 3 first)
                           | VTup [VInt 1; k; j] unpersist | VTup [VInt 2; dt] advance | VTup [VInt 3; mi] gc
    result = VTup [ids per pipeline; VList, per action, of VTup [result; user calls; managers] (ids relative to the counter at case start). *)
@@ -34,12 +34,23 @@ Definition lib_flat (n : Z) : option (Z -> list Z) :=
   | _ => None
   end.
 
+(* generator functions over the partition iterator (the Python twins consume it in two steps) *)
+Fixpoint pair_sums (l : list Z) : list Z :=
+  match l with a :: b :: r => (a + b) :: pair_sums r | _ => [] end.
+Definition lib_part (n : Z) : option (list Z -> list Z) :=
+  match n mod 3 with
+  | 0 => Some (fun xs => match xs with [] => [] | a :: r => [a * 100 + fold_left Z.add r 0] end)   (* islice(it,1) + list(it) *)
+  | 1 => Some (fun xs => match xs with [] => [] | a :: r => [a; Z.of_nat (List.length r)] end)           (* next(it) + list(it) *)
+  | _ => Some pair_sums                                                                             (* zip(it, it) *)
+  end.
+
 Definition dec_stage (v : val) : option (stage Z) :=
   match v with
   | VTup [VInt 0; VInt f] => option_map SMap (lib_map f)
   | VTup [VInt 1; VInt p] => option_map SFilter (lib_filter p)
   | VTup [VInt 2; VInt g] => option_map SFlatMap (lib_flat g)
   | VTup [VInt 3; VInt _] => Some SPersist
+  | VTup [VInt 4; VInt h] => option_map SPart (lib_part h)
   | _ => None
   end.
 
@@ -83,7 +94,8 @@ Definition dec_action (v : val) : option action :=
   end.
 
 Definition enc_key (k : key) : val := VTup [VInt (fst k); VInt (snd k)].
-Definition enc_event (e : event Z) : val := VTup [VInt (ev_rid e); VInt (ev_part e); VInt (ev_arg e)].
+Definition enc_event (e : event Z) : val :=
+  VTup [VInt (ev_rid e); VInt (ev_part e); match ev_arg e with Some x => VInt x | None => VNone end].
 Definition enc_mgr (m : mgr Z) : val :=
   VTup [VList (map (fun kv => VTup [enc_key (fst kv); vints (fst (snd kv))]) (m_entries m));
         VList (map (fun kt => VTup [enc_key (fst kt); VInt (snd kt)]) (m_times m))].
